@@ -244,10 +244,11 @@ func c14Run(e *Env, isCache bool) {
 	// The callbacks run under the map's lock, so the delete cannot take effect before the callback has returned:
 	// "callbacks run against the value actually in the map".
 	intruderOn := t.Chance(1, 3)
-	intruded := false
+	intruded, readerIntruded := false, false
+	readerFirst := t.Chance(1, 2)
 	intrude := func(k int, what string) {
 		e.mu.Lock()
-		if !intruderOn || intruded {
+		if !intruderOn || intruded || readerIntruded {
 			e.mu.Unlock()
 			return
 		}
@@ -277,6 +278,45 @@ func c14Run(e *Env, isCache bool) {
 		e.mu.Unlock()
 		if t {
 			e.Violate("C14.R2", "callback-outside-the-lock:"+what, "while the %s callback for key %d was running, a concurrent delete of that key took effect: the callback works on a value that is no longer in the map", what, k)
+		}
+	}
+
+	// reader intruder: the callbacks of the mutating operations are documented to run under the write lock, i.e.
+	// exclusively. A reader started from inside such a callback must not get to see the key before the callback
+	// has returned (the limiter, for one, mutates the value in place inside LoadOrStoreWithFunc's callback).
+	intrudeRead := func(k int, what string) {
+		e.mu.Lock()
+		if !intruderOn || !readerFirst || readerIntruded || intruded {
+			e.mu.Unlock()
+			return
+		}
+		readerIntruded = true
+		subClient++
+		sc := subClient
+		e.mu.Unlock()
+		e.Probe("callback.readerIntruderTried")
+		saw := false
+		rec := &c14Rec{client: sc, in: c14In{Op: mLoadWithFunc, K: k}}
+		go func() {
+			rec.call = tick()
+			_, rec.out.Ok = m.LoadWithFunc(k, func(v int) int {
+				rec.out.Cb, rec.out.CbV = true, v
+				e.mu.Lock()
+				saw = true
+				e.mu.Unlock()
+				return v
+			})
+			rec.ret = tick()
+			add(rec)
+		}()
+		for i := 0; i < 4; i++ {
+			runtime.Gosched()
+		}
+		e.mu.Lock()
+		s := saw
+		e.mu.Unlock()
+		if s {
+			e.Violate("C14.R2", "callback-not-exclusive:"+what, "while the %s callback for key %d was running (documented: under the write lock), a concurrent reader's callback ran on the same key", what, k)
 		}
 	}
 
@@ -368,12 +408,18 @@ func c14Run(e *Env, isCache bool) {
 			_, r.out.Ok = m.LoadWithFunc(in.K, func(v int) int { r.out.Cb, r.out.CbV = true, v; intrude(in.K, "LoadWithFunc"); return v })
 		case mLoadOrStoreWithFunc:
 			r.call = tick()
-			_, r.out.Ok = m.LoadOrStoreWithFunc(in.K, func(v int) int { r.out.Cb, r.out.CbV = true, v; intrude(in.K, "LoadOrStoreWithFunc"); return v }, func() int { return in.V })
+			_, r.out.Ok = m.LoadOrStoreWithFunc(in.K, func(v int) int {
+				r.out.Cb, r.out.CbV = true, v
+				intrudeRead(in.K, "LoadOrStoreWithFunc")
+				intrude(in.K, "LoadOrStoreWithFunc")
+				return v
+			}, func() int { return in.V })
 		case mReplaceWithFunc:
 			r.call = tick()
 			r.out.V, r.out.Ok = m.ReplaceWithFunc(in.K, func(old int, loaded bool) (int, bool) {
 				r.out.Cb, r.out.CbV, r.out.CbOk = true, old, loaded
 				if loaded {
+					intrudeRead(in.K, "ReplaceWithFunc")
 					intrude(in.K, "ReplaceWithFunc")
 				}
 				return in.V, in.Del
